@@ -213,7 +213,9 @@ _policy = st.one_of(
     st.lists(_rule, max_size=3).map(lambda rules: ('forward', tuple(rules))))
 _hdrs = st.lists(st.sampled_from(['Subject: test', 'From: a@b', 'To: c@d', 'Date: Mon, 01 Jan 2001 00:00:00 +0000',
                                   'Message-Id: <orig@id>', 'Received: from x by y; date', 'X-Dup: 1', 'X-Dup: 2',
-                                  'date: lower-case name', 'MESSAGE-ID: <upper@id>', 'X-8bit: \udce9']),
+                                  'date: lower-case name', 'MESSAGE-ID: <upper@id>', 'X-8bit: \udce9',
+                                  # present but without a value: still present
+                                  'Date:', 'DATE: ', 'Message-Id:']),
                  min_size=1, max_size=6, unique=True)
 @st.composite
 def _chain(draw):
